@@ -105,6 +105,18 @@ def generate(rng, tier):
             regs = s.regs_x86(addr, v(), v()) if arch == "x86" else s.regs_a64(rng.choice([M64, (1 << 48) - 1]), v(), v(), v())
             s.add("unwind U C %s %s %s %s" % (mode, hx(addr), regs, rng.choice(["S", "S", "E"])),
                   tag="macho:%s:%s:%s" % (arch, f.shape if f else "stub", mode))
+        # every byte of the synthetic sections (stubs, stub helpers: rules chosen from the offset alone) and the first
+        # bytes of the image, both roles
+        sweep = [prog["stubs"][0] + o for o in range(0, min(0x20, prog["stubs"][1] - prog["stubs"][0]))]
+        sweep += [prog["helper"][0] + o for o in range(0, min(0x40, prog["helper"][1] - prog["helper"][0]))]
+        sweep += [prog["stubs"][1] - 1, prog["stubs"][1], prog["helper"][1] - 1, prog["helper"][1], 0, 1]
+        for rva in sweep:
+            for mode in ("ip", "ra"):
+                addr = base + rva + (1 if mode == "ra" else 0)
+                v = lambda: rng.choice([rng.choice(BOUNDARY), lo + 8 * rng.below(0x100)])
+                regs = s.regs_x86(addr, v(), v()) if arch == "x86" else s.regs_a64(rng.choice([M64, (1 << 48) - 1]), v(), v(), v())
+                s.add("unwind U C %s %s %s %s" % (mode, hx(addr), regs, rng.choice(["S", "E"])),
+                      tag="macho:%s:synthetic:%s" % (arch, mode))
         out.append(("macho-valid-%d" % w, s))
     return out
 
